@@ -447,10 +447,10 @@ func init() {
 		// names that differ only by case class (MS-CFB compares upper-cased code units)
 		{
 			root := fillNode(r, &Node{Storage: true})
-			for _, nm := range []string{"a", "B", "abD", "abc", "Zz", "zy"} {
+			for _, nm := range []string{"a", "B", "abD", "abc", "Zz", "zy", "éa", "Éb", "ÿx", "µx", "Þx", "þy"} {
 				root.Kids = append(root.Kids, stream(r, u16(nm), 100))
 			}
-			run("case-names", "root streams a,B,abD,abc,Zz,zy", Build(&Spec{Root: root}), []op{{kind: "sign", size: 2000, exsize: 32}})
+			run("case-names", "root streams a,B,abD,abc,Zz,zy and Latin-1 cased names", Build(&Spec{Root: root}), []op{{kind: "sign", size: 2000, exsize: 32}})
 		}
 		// a single root stream, then deleted: the root storage becomes empty
 		{
@@ -761,10 +761,18 @@ func init() {
 			NA   string `json:"na"` // hex of relic's UTF-8 name
 			NB   string `json:"nb"`
 			Less bool   `json:"less"`
+			Want bool   `json:"want"` // MS-CFB order computed by the harness (gen.go cfbLess: length, then unicode.ToUpper per unit)
 		}
 		r := &core.Rng{S: c.Seed ^ 0x1e55}
 		names := [][]uint16{u16("a"), u16("B"), u16("b"), u16("A"), u16("ab"), u16("aB"), u16("Ab"), u16("AC"), u16("z"), u16("Z0"), u16("_"), u16("\x05X"),
-			u16("é"), u16("É"), u16("ÿ"), {0xD800, 0xDC00}, {0xE000}, {0xFFFD}, {0xD7FF}, {0x4840}, {0x3800}, {0x7f}, {0x80}, {0x7ff}, {0x800}, u16("abc"), u16("ABD")}
+			u16("é"), u16("É"), u16("ÿ"), {0xD800, 0xDC00}, {0xE000}, {0xFFFD}, {0xD7FF}, {0x4840}, {0x3800}, {0x7f}, {0x80}, {0x7ff}, {0x800}, u16("abc"), u16("ABD"),
+			// beyond Latin-1: Greek, Cyrillic, Latin Extended, digraphs, dotless i, long s, Greek Extended, roman numerals,
+			// fullwidth forms, micro sign / y diaeresis (upper case outside Latin-1), sharp s (no upper case)
+			u16("α"), u16("Α"), u16("β"), u16("Β"), u16("я"), u16("Я"), u16("ж"), u16("ā"), u16("Ā"), u16("ǆ"), u16("Ǆ"), u16("ǅ"), u16("ı"), u16("I"),
+			u16("ſ"), u16("S"), {0x1F80}, {0x1F88}, {0x2170}, {0x2160}, {0xFF41}, {0xFF21}, u16("µ"), {0x039C}, u16("ÿ"), {0x0178}, u16("ß"), {0x1E9E},
+			{0x0345}, {0x0399}, u16("αb"), u16("Αa"), u16("aα"), u16("Aβ"),
+			// surrogates: pairs (Deseret small/capital letters), lone halves, mixed with BMP units above and below them
+			{0xD801, 0xDC28}, {0xD801, 0xDC00}, {0xDC00}, {0xD800}, {0xDFFF}, {0xDBFF}, {0xD7FF, 0x61}, {0xD800, 0x61}, {0xE000, 0x61}, {0xFFFF}, {0xFFFF, 0x41}}
 		for i := 0; i < 12; i++ {
 			names = append(names, msiName(r, 1+r.Intn(4)))
 		}
@@ -803,7 +811,7 @@ func init() {
 			for _, j := range idx {
 				a, b := &cdf.Files[i], &cdf.Files[j]
 				c.Emit(lessCase{A: units(a), B: units(b), NA: hex.EncodeToString([]byte(a.Name())), NB: hex.EncodeToString([]byte(b.Name())),
-					Less: comdoc.VerifLessDirEnt(a, b)})
+					Less: comdoc.VerifLessDirEnt(a, b), Want: cfbLess(toU16(units(a)), toU16(units(b)))})
 			}
 		}
 		return nil
@@ -849,6 +857,14 @@ func readChain(path string, cdf *comdoc.ComDoc, first comdoc.SecID, short bool, 
 		}
 	}
 	return len(got) >= len(want) && bytes.Equal(got[:len(want)], want)
+}
+
+func toU16(l []int) []uint16 {
+	out := make([]uint16, len(l))
+	for i, v := range l {
+		out[i] = uint16(v)
+	}
+	return out
 }
 
 func repoDir() string {
